@@ -1334,7 +1334,15 @@ func (e *Engine) getEncodedDocument(ctx context.Context, key []byte, atTx uint64
 		return nil, store.ErrTxNotFound
 	}
 
-	err = e.sqlEngine.GetStore().WaitForIndexingUpto(ctx, atTx)
+	// the latest revision (atTx == 0) is the one written by the last committed
+	// transaction: the index has to have caught up with it, otherwise a document
+	// whose insertion was already acknowledged is reported as not found
+	waitUpto := atTx
+	if atTx == 0 {
+		waitUpto = e.sqlEngine.GetStore().LastCommittedTxID()
+	}
+
+	err = e.sqlEngine.GetStore().WaitForIndexingUpto(ctx, waitUpto)
 	if err != nil {
 		return nil, err
 	}
